@@ -1,2 +1,87 @@
-(* Spec/NewickSpec.v — specification-level definitions. *)
+(* Spec/NewickSpec.v — what C05 and C19 talk about. *)
 From Bio Require Import Base.
+From Bio.Model Require Import Newick.
+
+(* ------------------------------------------------------------------ *)
+(* C19: classic recursive traversals on node occurrences (path, node). *)
+
+(* occurrences of a child's subtree, seen from the parent: child index in front *)
+Definition under (i : nat) (l : list occ) : list occ := map (fun x => (i :: fst x, snd x)) l.
+
+(* children in slice order, child [k] of the list has index [i + k] *)
+Definition kids_from (f : tree -> list occ) : nat -> list tree -> list occ :=
+  fix go (i : nat) (l : list tree) : list occ :=
+    match l with
+    | [] => []
+    | c :: r => under i (f c) ++ go (S i) r
+    end.
+
+Fixpoint preorder (t : tree) : list occ :=
+  match t with Node _ _ cs => ([], t) :: kids_from preorder 0%nat cs end.
+
+Fixpoint postorder (t : tree) : list occ :=
+  match t with Node _ _ cs => kids_from postorder 0%nat cs ++ [([], t)] end.
+
+(* the node found by following a path *)
+Fixpoint subtree_at (t : tree) (p : path) : option tree :=
+  match p with
+  | [] => Some t
+  | i :: q => match nth_error (t_children t) i with
+              | Some c => subtree_at c q
+              | None => None
+              end
+  end.
+
+(* [p] is a proper ancestor of [q] *)
+Definition strict_prefix (p q : path) : Prop := exists r, r <> [] /\ q = p ++ r.
+
+(* [x] occurs in [l] strictly before an occurrence of [y] *)
+Definition before {A} (l : list A) (x y : A) : Prop :=
+  exists l1 l2 l3, l = l1 ++ x :: l2 ++ y :: l3.
+
+(* ------------------------------------------------------------------ *)
+(* C05                                                                  *)
+
+(* a zero distance ("0" or "-0") means "none": it is not written and reads
+   back as the float64 zero value *)
+Definition norm_dist (d : F) : F := if is_zeroF d then zeroF else d.
+Fixpoint norm (t : tree) : tree :=
+  match t with Node n d cs => Node n (norm_dist d) (map norm cs) end.
+
+(* the bytes the tokeniser treats specially *)
+Definition delims : bytes := [40; 41; 44; 58; 59; 39; 32; 9; 10; 13].
+
+(* strconv's contract for one float (DESIGN.md section 3, H1 and H2):
+   the written text parses back to the same float, is not empty and contains
+   no delimiter. *)
+Definition float_ok (o : foracle) (x : F) : Prop :=
+  parseF o (fmtF o x) = Some x /\ fmtF o x <> [] /\ clean delims (fmtF o x).
+
+Fixpoint dists (t : tree) : list F :=
+  match t with Node _ d cs => d :: flat_map dists cs end.
+
+(* every distance of the tree that is written satisfies the contract *)
+Definition floats_ok (o : foracle) (t : tree) : Prop :=
+  Forall (fun d => is_zeroF d = false -> float_ok o d) (dists t).
+
+Definition ws_string (s : bytes) : Prop := Forall (fun b => is_ws b = true) s.
+
+(* trees written one after another, each followed by a separator *)
+Fixpoint seq_text (o : foracle) (l : list (tree * bytes)) : bytes :=
+  match l with
+  | [] => []
+  | (t, sep) :: r => marshal o t ++ sep ++ seq_text o r
+  end.
+
+(* the bytes outside '...' stretches (the quote bytes themselves excluded) *)
+Fixpoint outside_quotes (inq : bool) (s : bytes) : bytes :=
+  match s with
+  | [] => []
+  | c :: r => if c =? 39 then outside_quotes (negb inq) r
+              else if inq then outside_quotes inq r
+              else c :: outside_quotes inq r
+  end.
+
+(* condensed: no whitespace outside quoted names *)
+Definition condensed (s : bytes) : Prop :=
+  Forall (fun b => is_ws b = false) (outside_quotes false s).
